@@ -454,23 +454,54 @@ func runNative(overlay map[string][]byte, pkgs map[string]string, reports []*Har
 			nr.err = fmt.Sprintf("go test -c ./%s: %v\n%s", d, err, string(out))
 			return nr
 		}
-		outf := filepath.Join(tmp, "out_"+sanitize(d)+".json")
-		run := exec.Command(bin, "-test.run", "^TestVerifReplay$", "-test.count=1", "-test.timeout=20m")
-		run.Dir = filepath.Join(repoDir, d)
-		run.Env = append(env, "VERIF_REPLAY="+jf, "VERIF_OUT="+outf)
-		o2, err := run.CombinedOutput()
-		ob, rerr := os.ReadFile(outf)
-		if rerr != nil {
-			nr.err = fmt.Sprintf("native run ./%s: %v %v\n%s", d, err, rerr, tail(string(o2), 2000))
-			return nr
-		}
-		var runs []*nativeRun
-		if e := json.Unmarshal(ob, &runs); e != nil {
-			nr.err = "native output: " + e.Error()
-			return nr
-		}
-		for _, r := range runs {
-			nr.results[r.ID] = r
+		outf := filepath.Join(tmp, "out_"+sanitize(d)+".jsonl")
+		skip := 0
+		for restarts := 0; restarts < 200; restarts++ {
+			run := exec.Command(bin, "-test.run", "^TestVerifReplay$", "-test.count=1", "-test.timeout=20m")
+			run.Dir = filepath.Join(repoDir, d)
+			run.Env = append(env, "VERIF_REPLAY="+jf, "VERIF_OUT="+outf, fmt.Sprintf("VERIF_SKIP=%d", skip))
+			o2, runErr := run.CombinedOutput()
+			ob, _ := os.ReadFile(outf)
+			done := 0
+			started := ""
+			for _, line := range strings.Split(string(ob), "\n") {
+				if strings.TrimSpace(line) == "" {
+					continue
+				}
+				var probe struct {
+					ID      string `json:"id"`
+					Started bool   `json:"started"`
+					Absent  bool   `json:"absent"`
+				}
+				if json.Unmarshal([]byte(line), &probe) != nil {
+					continue
+				}
+				switch {
+				case probe.Absent:
+					done++
+				case probe.Started:
+					started = probe.ID
+				default:
+					var r nativeRun
+					if json.Unmarshal([]byte(line), &r) == nil {
+						nr.results[r.ID] = &r
+						done++
+						started = ""
+					}
+				}
+			}
+			if runErr == nil || done >= len(jobs) {
+				break
+			}
+			// the process died while running job `started`: that job crashed the process
+			if started == "" {
+				nr.err = fmt.Sprintf("native run ./%s: %v\n%s", d, runErr, tail(string(o2), 1500))
+				return nr
+			}
+			nr.results[started] = &nativeRun{ID: started, Panic: "process crashed: " + tail(string(o2), 300)}
+			done++
+			os.WriteFile(outf, append(ob, []byte(fmt.Sprintf("{\"id\":%q,\"panic\":\"process crashed\"}\n", started))...), 0644)
+			skip = done
 		}
 	}
 	// race violations: confirm with the runtime race detector (one -race binary per package)
@@ -578,7 +609,7 @@ func compareTrace(expect []TraceEvent, r *nativeRun, outcome string) string {
 			return fmt.Sprintf("note %q: engine %q vs native %q", e.Label, e.Val, g.Val)
 		}
 	}
-	if len(got) > len(exp) && !wantPanic {
+	if len(got) > len(exp) && !wantPanic && outcome != "stop" {
 		return fmt.Sprintf("native trace longer: extra %v", got[len(exp)])
 	}
 	if wantPanic != (r.Panic != "") {
